@@ -157,11 +157,17 @@ def run(ctx):
             prec = None          # the library's default
             level = "processor"
             reconf = None
+        bump = r.rint(1, 4) if (level == "simulator" and r.chance(1, 2)) else 0
+        if bump and nh >= 1 and n_tot >= 2 and prec == 0 and r.chance(2, 3):
+            # a herald expecting two photons together with a partly distinguishable input: the input splits into tag
+            # groups with fewer photons each, and the engine's restricted output space must still hold every outcome
+            noise = dict(brightness=1.0, g2=0.0, indistinguishability=r.choice([0.92, 0.75]), transmittance=r.choice([1.0, 0.8]))
         keep = r.chance(1, 2) if level == "simulator" else False
         if level != "processor":
             reconf = None
         cases.append(dict(circ=c, m=m, heralds=heralds, free=free, inp=inp, flt=flt, ps_tree=ps_tree, ps_str=ps_str,
                           noise=noise, det=det, thr=thr_modes, level=level, backend=backend, keep=keep, reconf=reconf, prec=prec,
+                          bump=bump,
                           ps2=rand_ps(r, len(free)), flt2=r.rint(0, sum(inp) + 1)))
 
     # run the implementation first (it also provides the input mixture), then the model in one batch
@@ -201,6 +207,17 @@ def run(ctx):
                 sim = Simulator(p.backend)
                 sim.set_precision(0)
                 sim.set_circuit(p.linear_circuit())
+                bump_mode = sorted(heralds)[cs["bump"] % len(heralds)] if (cs["bump"] and heralds) else None
+                # (a herald expecting more than its detector can report is refused up front by check_heralds_detectors
+                #  with the convention physical_perf = 1, logical_perf = 0: C08's matter, not generated here)
+                if bump_mode is not None and bump_mode not in cs["thr"]:
+                    # at simulator level a herald may expect any count (a processor only declares 0 or 1): expect two
+                    # photons on one heralded mode, whatever that mode was fed with
+                    heralds = dict(heralds)
+                    heralds[bump_mode] = 2
+                    desc["heralds"] = {str(k): v for k, v in heralds.items()}
+                    F = cs["flt"] + sum(heralds.values())
+                    cs["heralds"] = heralds
                 sim.set_selection(min_detected_photons_filter=cs["flt"], postselect=p.post_select_fn, heralds=dict(heralds))
                 sim.keep_heralds(cs["keep"])
                 res = sim.probs_svd(svd, p.detectors if cs["thr"] else None)
@@ -246,6 +263,8 @@ def run(ctx):
         ctx.case(["cond", gen.qmat_key(cs["circ"].U), str(desc)], nontriv, desc)
         ctx.count("level." + cs["level"])
         ctx.count("heralds.%d" % len(heralds))
+        if any(v >= 2 for v in heralds.values()):
+            ctx.count("herald-expecting-2")
         ctx.count("noise." + ("on" if cs["noise"] else "off"))
         ctx.count("det." + cs["det"])
         ctx.count("ps." + ("yes" if cs["ps_str"] else "no"))
